@@ -45,14 +45,14 @@ enum { ST_MUST, ST_MAY, ST_NEVER };
 enum { TRIM_NONE, TRIM_HDR1_FIRST, TRIM_HDR2_FIRST, TRIM_HDR_SECOND, TRIM_EXACT };
 
 enum { CL_HDRCUT, CL_TWO, CL_STUFF, CL_DISC, CL_DROP, CL_BADHDR, CL_SEG, CL_LEADIN, CL_PTR,
-       CL_SPAN3, CL_MAXLEN, CL_MINLEN, CL_EXACT, CL_HOLD, CL_FUZZ, CL_WINDOW, CL_ARENA, CL_SEGHDR, CL_RESYNC, CL_MAYOUT, CL_REFLOW };
+       CL_SPAN3, CL_MAXLEN, CL_MINLEN, CL_EXACT, CL_HOLD, CL_FUZZ, CL_WINDOW, CL_ARENA, CL_SEGHDR, CL_RESYNC, CL_MAYOUT, CL_REFLOW, CL_BADPTR_FIRST };
 static const char *const class_names[] = {
     "section_cut_inside_header", "two_sections_in_one_payload", "stuffing", "discontinuity_flag",
     "dropped_payload", "forbidden_header", "segmented_input", "lead_in_unsynchronised_pointer",
     "pointer_field_gt0_while_synchronised", "section_spans_3_payloads", "section_4096",
     "section_3", "section_ends_on_payload_end", "sink_holds_outputs", "fuzz_mode",
     "window_into_packet", "window_into_arena", "segment_boundary_inside_header",
-    "required_section_after_event", "optional_section_present", "flow_def_set_again_in_mid_stream", NULL };
+    "required_section_after_event", "optional_section_present", "flow_def_set_again_in_mid_stream", "corrupt_unit_start_with_pointer_beyond_payload_first", NULL };
 
 struct sec {
     uint8_t *b; int len; int kind;
@@ -527,6 +527,21 @@ static int run(const uint8_t *tape, size_t len, struct vp_report *rep, unsigned 
     /* in a quarter of the cases the flow definition is announced again in mid-stream (another latency, as an upstream pipe does when
      * its own latency changes): a section that is being assembled stays in assembly (uses no tape octet) */
     int reflow_at = (c->npay > 1 && (c->npay * 7 + c->nsec * 3) % 4 == 0) ? 1 + (c->npay * 5 + c->nsec) % (c->npay - 1) : -1;
+    /* in a quarter of the configurations the stream is preceded by a corrupt unit start -- a pointer_field that points beyond the
+     * payload (1-3 octets) -- as a receiver tuning in sees them: nothing can start there, the merger is as unsynchronised afterwards as
+     * it was before, and the sections of the stream proper come out as they would have (uses no tape octet) */
+    if (((b0 * 167u) >> 3) % 4 == 3 && !c->ret) {
+        uint8_t junk[3] = { (uint8_t)(200 + (c->npay * 11 + c->nsec) % 50), 0x47, 0x11 };
+        int n = 1 + (c->npay + c->nsec) % 3;
+        struct uref *uref = c16_uref_with(c->fm.uref_mgr, c16_block_from(c->fm.block_mgr, junk, n));
+        if (!uref) { c->ret = vp_internal(rep, "cannot build the corrupt unit start"); goto out; }
+        uref_block_set_start(uref);
+        R("  (corrupt unit start first: %d octet(s), pointer_field=%u)\n", n, junk[0]);
+        upipe_input(psim, uref, NULL);
+        if (c->sink.nrec) FAIL("C16/merge/invented", "a unit start of %d octet(s) whose pointer_field is %u produced an output", n, junk[0]);
+        CLS(CL_BADPTR_FIRST);
+        c->hash = vp_hash_mix(c->hash, 0xbad0 + n);
+    }
     for (int q = 0; q < c->npay && !c->ret; q++) {
         struct pay *p = &c->pay[q];
         if (q == reflow_at) {
